@@ -119,21 +119,48 @@ func init() {
 	Register(&Check{ID: "C08", Level: "exploration",
 		Rule: "one case = one generated workflow with pass-through recorder components (public component API) on the out-port edges of every command process, 1..8 slots and command durations over 6 orders of magnitude so that later tasks often finish first (probe task-finished-out-of-order); the recorded sequence of every edge must equal the order in which the producing input sets were received (reference order for single-upstream ports, per-upstream projection for fan-in). distinct = event-log hash; non-trivial = >=2 tasks and >=1 non-default choice",
 		Run: func(c *Case) Verdict {
-			w := Generate(c.Tape, tierProfile(profC08, c.Tier))
-			for i := range w.Nodes {
-				if w.Nodes[i].Kind == KProc {
-					w.Nodes[i].Rec = true
+			var w *WF
+			mixed := c.Tape.Choose(simrt.StGen, 5, 0) == 1
+			if mixed {
+				// a process with a streaming AND an ordinary out-port: the ordinary
+				// port must keep input order as well
+				w = streamWF(c)
+				prod := w.NodeByName("prod")
+				if len(prod.Outs) == 1 {
+					prod.Outs = append(prod.Outs, OutSpec{Name: "o1", Pattern: "{i:a}.prod.o1"})
 				}
-			}
-			if w.MaxTasks < 3 {
-				w.MaxTasks += 3
+				prod.Rec = true
+				w.NodeByName("cons").Rec = true
+			} else {
+				w = Generate(c.Tape, tierProfile(profC08, c.Tier))
+				for i := range w.Nodes {
+					if w.Nodes[i].Kind == KProc {
+						w.Nodes[i].Rec = true
+					}
+				}
+				if w.MaxTasks < 3 {
+					w.MaxTasks += 3
+				}
 			}
 			c.Sample = sample(w)
 			ex := Eval(w)
-			inc := RunInc(w, c.Tape, nil, 0, IncOpts{KillAt: -1, Strategy: strategyOf(c.Tape), Trace: c.Trace})
+			var root *simrt.Inode
+			nextIno := 0
+			if !mixed && c.Tape.Choose(simrt.StGen, 3, 0) == 1 {
+				// outputs of some (complete) tasks exist already: skipped tasks must
+				// not overtake earlier ones that still have to be computed
+				var pre map[string][]byte
+				root, nextIno, pre = preplaceMap(c, w, ex, false)
+				ex = EvalWith(w, pre)
+				c.Sample = fmt.Sprintf("pre-existing %v: %s", keysOf(pre), c.Sample)
+			}
+			inc := RunInc(w, c.Tape, root, nextIno, IncOpts{KillAt: -1, Strategy: strategyOf(c.Tape), Trace: c.Trace})
 			c.Absorb(inc)
 			outOfOrderProbe(c, inc)
 			if v := flowOracle(inc, ex); v.Status != "ok" {
+				if v.Status == "violation" {
+					return Skipped(v)
+				}
 				return v
 			}
 			return orderOracle(inc, ex)
@@ -277,7 +304,7 @@ func init() {
 			if fault != nil && !fault.Hit {
 				// the victim was never started - only legal if something else went wrong first
 				if completedOK(inc) {
-					return Viol("task-lost", "", "task %s was never executed", victim.Key)
+					return Skipped(Viol("task-lost", "", "task %s was never executed", victim.Key))
 				}
 			}
 			c.Tasks++ // the failing command counts as work
